@@ -10,7 +10,7 @@ def lemma(name, op, n, k=40):
                  bounded=f'element storage {k} bytes; one listed pair', functions=['harness/spec_sig.h: spec_sig_op (lemma over the specification)'])
 QUERIES = [lemma('mock_lemma_checksig', 0xac, 2), lemma('mock_lemma_checksigverify', 0xad, 2), lemma('mock_lemma_checksigadd', 0xba, 3)]
 # code == spec for every mock configuration (the mock table is symbolic in all C02 signature queries): re-run the single-signature ones and two multisig cases
-QUERIES += [q for q in C02.QUERIES if q.tier == 'quick' and re.match(r'sig_(checksig_pre|checksig_tapscript|checksig_taproot|checksigverify_pre|checksigadd_tapscript|multisig_1of1)$', q.name)]
+QUERIES += [q for q in C02.QUERIES if re.match(r'sig_(checksig_pre|checksig_tapscript|checksig_taproot|checksigverify_pre|checksigadd_tapscript|multisig_1of0|multisig_1of1|multisig_2of1)$', q.name)]   # (multisig with signatures: thorough tier)
 META = {'level': 'proof', 'trusted_base': TRUSTED + ['stubs/step_env_sig.h oracles'],
  'assumptions': ASSUME_COMMON + [
    "claimed: the opcode half; the pair-list parser Instance::parse_pretend_valid_expr (strndup / Value parsing) is not applicable",
